@@ -183,11 +183,12 @@ def impl_cli(case):
         for f in case["files"]:
             spec[r + "/" + f] = "x"
     with common.Sandbox(spec) as root:
-        call = "%probe(" + ", ".join(esc_string(a) for a in case["args"]) + ")"
+        slow = ["timeout_ms=120000"]     # a loaded machine must not turn a slow program start into an evaluation error
+        call = "%probe(" + ", ".join([esc_string(a) for a in case["args"]] + slow) + ")"
         if case["with_ctx"]:
             call += "{%Name()}"
         if case.get("args2") is not None:
-            call += "_%probe(" + ", ".join(esc_string(a) for a in case["args2"]) + ")"
+            call += "_%probe(" + ", ".join([esc_string(a) for a in case["args2"]] + slow) + ")"
         args = ["-ah", "probe=" + PROBE, "--dry-run", "-r", "-ih", "-p", "%Dir()/pre" + call + "post-%Name()"] + [str(root / r) for r in case["roots"]]
         if case.get("verbose"):
             args.insert(0, "-v")     # what is logged must not change how often or how the program is run
